@@ -34,6 +34,8 @@ import traceback
 
 ROOT = os.path.dirname(os.path.dirname(os.path.abspath(__file__)))
 REPO = os.path.abspath(os.environ.get("VERIF_REPO", "/repo"))
+# development aid (tools/mutsweep.py): evidence / replay files of a run against a scratch tree go elsewhere
+OUT = os.path.abspath(os.environ.get("VERIF_OUT", "") or os.path.dirname(os.path.dirname(os.path.abspath(__file__))))
 DEPS = os.path.join(ROOT, ".deps")
 CASE_TIMEOUT_S = 30
 MAX_HASHES = 400_000
@@ -434,7 +436,7 @@ def _spawn(args, hashseed="0", extra_env=None):
 
 
 def write_replay(pid, v):
-    d = os.path.join(ROOT, "replays", pid)
+    d = os.path.join(OUT, "replays", pid)
     os.makedirs(d, exist_ok=True)
     path = os.path.join(d, "%s.json" % case_hash(v["case"]))
     with open(path, "w") as f:
@@ -549,11 +551,11 @@ def parent_main(pid, tier, replay=None):
             "wall_s": round(wall, 2),
             "violations": len(paths),
         }
-        os.makedirs(os.path.join(ROOT, "evidence"), exist_ok=True)
-        with open(os.path.join(ROOT, "evidence", pid + ".json"), "w") as f:
+        os.makedirs(os.path.join(OUT, "evidence"), exist_ok=True)
+        with open(os.path.join(OUT, "evidence", pid + ".json"), "w") as f:
             json.dump(ev, f, indent=1, default=repr)
         for path in paths:
-            print("VIOLATION property=%s replay=%s" % (pid, os.path.relpath(path, ROOT)))
+            print("VIOLATION property=%s replay=%s" % (pid, os.path.relpath(path, OUT)))
         if paths:
             return 1
         floor = getattr(mod, "FLOOR", {}).get(tier, 2)
